@@ -11,7 +11,7 @@ RULE = ("enum: 12 predefined sizes x 20 residues (each residue alone and inside 
         "laws; user alphabets: total maps 20->20 (accepted, applied letter by letter, alphabet = set of images), one key removed, one value "
         "replaced by a non-amino-acid (lower case, two letters, digit, empty), non-dict non-empty containers (all rejected). Oracle: the "
         "harness's transcription of the documented partitions - the image of a residue is a member of its documented group, equal for all "
-        "members, distinct across groups; returned alphabet as a set equals the set of representatives. Non-trivial: the sequence contains >=2 "
+        "members, distinct across groups; returned alphabet as a set equals the set of representatives. Half of the random cases run on an object that has already made other calls (in particular a reduction with a different total user alphabet). Non-trivial: the sequence contains >=2 "
         "distinct residues that the alphabet merges (enum: every (size,residue) fact); distinct by (size/alphabet, sequences).")
 ASSUMPTIONS = ["PARTITIONS in vlc/ref.py transcribe the documented groups for sizes 2,3,4,5,6,8,10,11,12,15,18,20",
                "sizes are passed as integers (strings that parse as integers are not asserted either way)",
@@ -21,8 +21,8 @@ LEVEL_TEXT = "Exploration: the finite table (12 sizes x 20 residues) and the siz
 LEVEL_NOTE = "Trusts the transcribed partitions."
 
 
-def reduce_(seq, size=20, user=None):
-    o = util.sp(seq)
+def reduce_(seq, size=20, user=None, case=None):
+    o = util.spw(seq, case or {})
     if user is not None:
         return o.get_reduced_alphabet_sequence(userAlphabet=user)
     return o.get_reduced_alphabet_sequence(size)
@@ -69,7 +69,7 @@ def check_laws(ctx, case):
     a, b, size = case["a"], case["b"], case["size"]
     merged = len(set(a)) - len(set(ref.group_of(size, r) for r in a))
     ctx.count(case, nontrivial=merged >= 1, classes=["size:%d" % size])
-    ra, al = reduce_(a, size)
+    ra, al = reduce_(a, size, case=case)
     rb, _ = reduce_(b, size)
     rab, _ = reduce_(a + b, size)
     ctx.check(len(ra) == len(a), "length", "len(reduce(a))=%d, len(a)=%d" % (len(ra), len(a)), case)
@@ -88,7 +88,7 @@ def check_user(ctx, case):
         arg = dict(user)
     else:
         arg = user
-    ok, res = util.exc_name(reduce_, seq, 20, arg)
+    ok, res = util.exc_name(reduce_, seq, 20, arg, case)
     if valid:
         ctx.check(ok, "user-rejected", "total user alphabet rejected (%s)" % (res,), case)
         img, alphabet = res
@@ -118,22 +118,26 @@ def hyp_case(draw, max_len):
     kind = draw(st.sampled_from(["laws", "laws", "user", "user"]))
     if kind == "laws":
         return {"kind": "laws", "a": draw(gens.sequences(max_len=max_len)), "b": draw(gens.sequences(max_len=max_len)),
-                "size": draw(st.sampled_from(SIZES))}
+                "size": draw(st.sampled_from(SIZES)), "warm": draw(gens.warmups())}
     seq = draw(gens.sequences(max_len=max_len))
     nimg = draw(st.integers(1, 20))
     images = draw(st.lists(st.sampled_from(list(ref.AA)), min_size=nimg, max_size=nimg, unique=True))
     user = {a: draw(st.sampled_from(images)) for a in ref.AA}
     how = draw(st.sampled_from(["valid", "valid", "missing-key", "bad-value", "non-dict"]))
+    warm = draw(gens.warmups())
+    if draw(st.booleans()):
+        # the same object has just reduced with another total user alphabet (and perhaps a predefined one)
+        warm = warm + [["get_reduced_alphabet_sequence", [20, draw(gens.user_alphabets())]]]
     if how == "valid":
-        return {"kind": "user", "seq": seq, "user": user, "valid": True}
+        return {"kind": "user", "seq": seq, "user": user, "valid": True, "warm": warm}
     if how == "missing-key":
         k = draw(st.sampled_from(list(ref.AA)))
         del user[k]
-        return {"kind": "user", "seq": seq, "user": user, "valid": False, "why": "missing-key"}
+        return {"kind": "user", "seq": seq, "user": user, "valid": False, "why": "missing-key", "warm": warm}
     if how == "bad-value":
         k = draw(st.sampled_from(list(ref.AA)))
         user[k] = draw(st.sampled_from(["a", "k", "AK", "1", "", "X", "B", "*", " "]))
-        return {"kind": "user", "seq": seq, "user": user, "valid": False, "why": "bad-value"}
+        return {"kind": "user", "seq": seq, "user": user, "valid": False, "why": "bad-value", "warm": warm}
     nd = draw(st.sampled_from([list(ref.AA), "ACDEFGHIKLMNPQRSTVWY", [["A", "A"]], ["A"]]))
     return {"kind": "user", "seq": seq, "user": nd, "valid": False, "why": "non-dict"}
 
